@@ -745,6 +745,8 @@ theorem admin_write_failure_restores (v : Variant) (f : Faults) (s : Auth) (id :
         simp only [tick] at h ⊢
         by_cases hb : 1 ∈ f
         · simp only [Nat.zero_add, List.contains_eq_mem, hb, decide_true, if_true] at h ⊢
+          rw [afterFailUndo_snd] at h
+          rw [afterFailUndo_eq _ _ _ _ _ (.inl (by rw [h]; simp))]
           have := afterFail_image f _ .storeFailed (by simp) (by rw [h]; simp)
           simpa using this
         · simp [hb] at h
@@ -762,6 +764,8 @@ theorem admin_write_failure_restores (v : Variant) (f : Faults) (s : Auth) (id :
         simp only [tick] at h ⊢
         by_cases hb : 1 ∈ f
         · simp only [Nat.zero_add, List.contains_eq_mem, hb, decide_true, if_true] at h ⊢
+          rw [afterFailUndo_snd] at h
+          rw [afterFailUndo_eq _ _ _ _ _ (.inl (by rw [h]; simp))]
           have := afterFail_image f _ .storeFailed (by simp) (by rw [h]; simp)
           simpa using this
         · simp [hb] at h
